@@ -125,6 +125,8 @@ class _HarnessBase:
         self.eio_sids = 0
         self.eio_closes = 0
         self.frames_after_close = 0
+        self.raw_hook = None       # bridge: gets every engine.io packet
+        self.connect_hook = None   # bridge: called when the transport opens
 
     def next_outcome(self):
         if self.plan:
@@ -190,6 +192,8 @@ def _make_sync_eio(h):
             self.state = 'connected'
             h.asm = R.Assembler(h.serializer)
             eio_base_client.connected_clients.append(self)
+            if h.connect_hook is not None:
+                h.connect_hook()
             try:
                 self._trigger_event('connect', run_async=False)
             except Exception as exc:
@@ -207,6 +211,10 @@ def _make_sync_eio(h):
             if self.state != 'connected':
                 if pkt.packet_type == eio_packet.MESSAGE:
                     h.frames_after_close += 1
+                return
+            if h.raw_hook is not None:
+                h._client_sent(pkt)
+                h.raw_hook(pkt)
                 return
             d = h._client_sent(pkt)
             if d is not None:
@@ -353,6 +361,10 @@ def _make_async_eio(h):
             self.state = 'connected'
             h.asm = R.Assembler(h.serializer)
             eio_base_client.connected_clients.append(self)
+            if h.connect_hook is not None:
+                r = h.connect_hook()
+                if asyncio.iscoroutine(r):
+                    await r
             try:
                 await self._trigger_event('connect', run_async=False)
             except Exception as exc:
@@ -373,6 +385,10 @@ def _make_async_eio(h):
                 if pkt.packet_type == eio_packet.MESSAGE:
                     h.frames_after_close += 1
                 return
+            if h.raw_hook is not None:
+                h._client_sent(pkt)
+                await h.raw_hook(pkt)
+                return
             d = h._client_sent(pkt)
             if d is not None:
                 h.script.on_packet(h, d)
@@ -383,10 +399,11 @@ def _make_async_eio(h):
 class AsyncClientHarness(_HarnessBase):
     is_async = True
 
-    def __init__(self, serializer='default', script=None, client_kw=None):
+    def __init__(self, serializer='default', script=None, client_kw=None,
+                 loop=None):
         import socketio
         self._init_common(serializer, script)
-        self.loop = VirtualLoop()
+        self.loop = loop or VirtualLoop()
         self.loop.set_exception_handler(self._loop_exc)
         asyncio.set_event_loop(self.loop)
         eio_cls = _make_async_eio(self)
